@@ -202,10 +202,15 @@ class ValueGen:
         if name == "date":
             return r.choice([0, 1, -1, 18278, 19000, 11016, -25567, 47482, r.randint(-20000, 40000)])
         if name == "time":
-            return r.choice([0, 1, 999, 1000, 86399999999999, 39025777888999, r.randint(0, 86399999999999)])
+            return r.choice([0, 1, 999, 1000, 86399999999999, 39025777888999, r.randint(0, 86399999999999),
+                             r.randint(0, 86399999999) * 1000, r.randint(0, 86399) * 10**9])      # (also whole microseconds / seconds: what datetime.time can hold)
         if name == "datetime":
             return r.choice([0, 1, -1, 1685471816708792349, 1000000000, r.randint(-(1 << 60), 1 << 61) if not self.json_safe else r.randint(0, 1 << 61),
-                             r.randint(0, 2 * 10**18)])
+                             r.randint(0, 2 * 10**18),
+                             # whole microseconds (what datetime.datetime can hold), before and after 1970
+                             r.randint(0 if self.json_safe else -2 * 10**15, 2 * 10**15) * 1000,
+                             r.randint(0 if self.json_safe else -2 * 10**15, 2 * 10**15) * 1000,
+                             r.randint(0 if self.json_safe else -2 * 10**9, 2 * 10**9) * 10**9])
         raise ValueError(name)
 
 
